@@ -219,6 +219,10 @@ pub enum Mutation {
     WrongBits,
     /// bits above the network maximum
     BitsAboveMax,
+    /// bits copied from the parent (wrong exactly where consensus requires a change)
+    ParentBits,
+    /// minimum-difficulty bits (wrong unless the 20-minute rule or the cap applies)
+    LimitBits,
     NoTransactions,
     NoCoinbase,
     BadMerkleRoot,
@@ -235,6 +239,8 @@ pub enum Special {
     ManyOutputs { n: u16, to: u8 },
     /// `n` tiny fee-paying transactions (fee window tests)
     ManyTxs { n: u16 },
+    /// coinbase with a single OP_RETURN output (keeps ledgers tiny on very long chains)
+    BareCoinbase,
 }
 
 #[derive(Clone, Debug, PartialEq, Eq, Serialize, Deserialize)]
@@ -295,6 +301,7 @@ pub struct BtcNet {
     pub blocks: BTreeMap<usize, NetBlock>,
     pub by_hash: BTreeMap<Hash32, usize>,
     pub children: BTreeMap<usize, Vec<usize>>,
+    hdr_cache: std::cell::RefCell<Vec<(usize, Rc<Vec<Header>>)>>,
     pub wallet: Wallet,
     pub real_pow: bool,
 }
@@ -331,6 +338,7 @@ impl BtcNet {
             blocks,
             by_hash,
             children: BTreeMap::new(),
+            hdr_cache: std::cell::RefCell::new(vec![]),
             wallet,
             real_pow: network == Network::Regtest,
         }
@@ -356,11 +364,29 @@ impl BtcNet {
         v
     }
 
+    /// Headers genesis ..= id. Cached for the most recently used tips (long chains would
+    /// otherwise pay O(height) map lookups per call).
     pub fn headers_to(&self, id: usize) -> Vec<Header> {
-        self.chain_to(id)
-            .iter()
-            .map(|i| self.blocks[i].block.header)
-            .collect()
+        let mut cache = self.hdr_cache.borrow_mut();
+        if let Some((_, v)) = cache.iter().find(|(k, _)| *k == id) {
+            return (**v).clone();
+        }
+        let built: Vec<Header> = match self.blocks[&id].parent {
+            Some(p) => match cache.iter().find(|(k, _)| *k == p) {
+                Some((_, pv)) => {
+                    let mut v = (**pv).clone();
+                    v.push(self.blocks[&id].block.header);
+                    v
+                }
+                None => self.chain_to(id).iter().map(|i| self.blocks[i].block.header).collect(),
+            },
+            None => vec![self.blocks[&id].block.header],
+        };
+        if cache.len() >= 12 {
+            cache.remove(0);
+        }
+        cache.push((id, Rc::new(built.clone())));
+        built
     }
 
     fn coinbase(&self, spec: &MineSpec, height: u32, rng: &mut Rng) -> Transaction {
@@ -369,6 +395,24 @@ impl BtcNet {
         push_slice(&mut sig, &(spec.id as u64).to_le_bytes());
         push_slice(&mut sig, &spec.seed.to_le_bytes());
         let mut output = vec![];
+        if spec.special == Special::BareCoinbase {
+            let mut s = vec![0x6a];
+            push_slice(&mut s, &rng.bytes(8));
+            return Transaction {
+                version: TxVersion::TWO,
+                lock_time: LockTime::ZERO,
+                input: vec![TxIn {
+                    previous_output: OutPoint::null(),
+                    script_sig: ScriptBuf::from_bytes(sig),
+                    sequence: Sequence::MAX,
+                    witness: Witness::new(),
+                }],
+                output: vec![TxOut {
+                    value: Amount::from_sat(0),
+                    script_pubkey: ScriptBuf::from_bytes(s),
+                }],
+            };
+        }
         let n = 1 + rng.below(2) as usize;
         for _ in 0..n {
             let e = rng.pick(&self.wallet.entries);
@@ -417,6 +461,9 @@ impl BtcNet {
     /// Builds the transactions of a block on top of `ledger` (the parent's ledger).
     fn build_txs(&self, spec: &MineSpec, height: u32, ledger: &Ledger, rng: &mut Rng) -> Vec<Transaction> {
         let mut txs = vec![self.coinbase(spec, height, rng)];
+        if spec.ntx == 0 && matches!(spec.special, Special::None | Special::BareCoinbase) {
+            return txs;
+        }
         // Spendable pool: (outpoint, value); excludes the genesis coinbase.
         let genesis_txid = model::txid_of(&self.blocks[&0].block.txdata[0]);
         let mut pool: Vec<(OutP, u64)> = ledger
@@ -544,7 +591,7 @@ impl BtcNet {
                     }
                 }
             }
-            Special::None => {}
+            Special::None | Special::BareCoinbase => {}
         }
 
         for _ in 0..spec.ntx {
@@ -623,6 +670,12 @@ impl BtcNet {
             }
             Mutation::BitsAboveMax => {
                 bits = rules::bits_above_max(self.network);
+            }
+            Mutation::ParentBits => {
+                bits = parent.block.header.bits.to_consensus();
+            }
+            Mutation::LimitBits => {
+                bits = rules::pow_limit_bits(self.network);
             }
             _ => {}
         }
